@@ -21,7 +21,13 @@ impl StrengthReduction {
     fn is_side_effect_free(expr: &Expression) -> bool {
         // Only literals can be duplicated safely: reading an identifier twice would run
         // `valueOf`/`toString` of an object value (and any accessor behind the binding) twice.
-        matches!(expr, Expression::Literal(_))
+        // BigInt literals are excluded: `10n ** 2` throws (BigInt mixed with Number) but
+        // `10n * 10n` does not.
+        matches!(
+            expr,
+            Expression::Literal(lit)
+                if !matches!(lit.kind(), boa_ast::expression::literal::LiteralKind::BigInt(_))
+        )
     }
 
     fn as_literal_int(expr: &Expression) -> Option<i32> {
